@@ -299,6 +299,7 @@ Section Exact.
     - (* MCreateIndex *) cbn [ast_stmt items]. node. rewrite C_index_keys.
       destruct (em KCreateIndex SColumns); cbn; rewrite ?app_nil_r; fin.
     - (* MCreateTable *) cbn [ast_stmt items]. node. cbn. rewrite !app_nil_r. fin.
+    - (* MExplain *) cbn [ast_stmt items]. node. cbn. rewrite !app_nil_r. fin.
   Qed.
 
   Theorem items_exact : forall s, set_eq (C (ast_stmt s)) (items s).
@@ -460,6 +461,21 @@ Theorem extract_nodup em stmts :
   NoDup (map qname_string (extract_columns_qualified em stmts)).
 Proof.
   repeat split; try apply dedup_NoDup; apply kdedup_NoDup.
+Qed.
+
+(* ---- EXPLAIN q before /repo kept the query in the tree: nothing of q was extracted ---- *)
+Definition ex_explained : mstmt :=
+  MSelect CNil (ICons (MFunc (mkName "UPPER" eq_refl) (ECons (MCol "" (mkName "b" eq_refl)) ENil)) "" INil)
+          (TCons (TName (mkT "s1.users" eq_refl) "u") TNil) JNil ONone ENil ONone ENil.
+Theorem explain_names_dropped em :
+  exists q t c f,
+    In t (tables_written (MExplain q)) /\ In c (columns_written (MExplain q)) /\ In f (functions_written (MExplain q)) /\
+    extract_tables em [explain_pinned] = [] /\ extract_columns em [explain_pinned] = [] /\
+    extract_functions em [explain_pinned] = [].
+Proof.
+  exists ex_explained, "s1.users", "b", "UPPER".
+  repeat split; try (cbn; tauto);
+    unfold extract_tables, extract_columns, extract_functions, collect, explain_pinned; cbn; reflexivity.
 Qed.
 
 (* ---- cost: one visit per node (repaired form) vs. doubling per nested set operation (pinned form) ---- *)
